@@ -1,7 +1,20 @@
 #!/bin/bash
-# usage: mkwt.sh <dir>   -- scratch git worktree of /repo with compiled extensions copied in
+# usage: mkwt.sh <dir>   -- scratch git worktree of /repo with compiled extensions copied in.
+# /repo must be clean (no seed applied) and its compiled modules are first brought in sync with its
+# sources (a seed tested earlier may have left a stale .so behind), under the harness's build lock.
 set -e
 d="$1"
+exec 9>/tmp/.qv_build.lock
+n=0
+while true; do
+  flock 9
+  if [ -z "$(git -C /repo status --porcelain --untracked-files=no)" ]; then break; fi
+  flock -u 9
+  n=$((n+1))
+  if [ $n -gt 180 ]; then echo "mkwt.sh: /repo has local changes; refusing to copy its build" >&2; exit 3; fi
+  sleep 10
+done
+(cd /repo && QUTIP_VERIF=1 /venv/bin/python setup.py build_ext --inplace -j16 >/tmp/.qv_mkwt_build.log 2>&1) || { echo "mkwt.sh: build failed" >&2; exit 3; }
 git -C /repo worktree add --detach "$d" HEAD >/dev/null 2>&1
 cd /repo
 find qutip -name "*.so" -o -name "*.cpp" | grep -v "/src/" | while read f; do
@@ -10,4 +23,5 @@ done
 find "$d/qutip" -name "*.cpp" | grep -v "/src/" | xargs touch; sleep 1; find "$d/qutip" -name "*.so" | xargs touch
 # version file etc.
 [ -f /repo/qutip/version.py ] && cp -p /repo/qutip/version.py "$d/qutip/version.py" || true
+flock -u 9
 echo "$d"
